@@ -33,7 +33,11 @@ Layouts == <<
   \* two genes from the same start codon, the first one spliced: in a coordinate-sorted GFF3 its rows are not adjacent
   << Feat("gL", "CDS", TRUE, 1, <<<<4, 9>>, <<13, 15>>>>, 1, 0), Feat("gS", "CDS", TRUE, 1, <<<<4, 15>>>>, 1, 0), Feat("g2", "CDS", TRUE, -1, <<<<25, 30>>, <<19, 24>>>>, 1, 0) >>,
   \* a forward-strand join whose first segment lies downstream of its second (a gene across the origin of a circular genome)
-  << Feat("g1", "CDS", TRUE, 1, <<<<19, 21>>, <<4, 15>>>>, 1, 0) >>
+  << Feat("g1", "CDS", TRUE, 1, <<<<19, 21>>, <<4, 15>>>>, 1, 0) >>,
+  \* reverse-strand genes whose frame does not start at their first base: codon_start 3 / 2, single and joined
+  << Feat("g1", "CDS", TRUE, 1, <<<<4, 15>>>>, 1, 0), Feat("g2", "CDS", TRUE, -1, <<<<19, 29>>>>, 3, 0) >>,
+  << Feat("g1", "CDS", TRUE, 1, <<<<2, 15>>>>, 3, 0), Feat("g2", "CDS", TRUE, -1, <<<<25, 28>>, <<19, 24>>>>, 2, 0) >>,
+  << Feat("g2", "CDS", TRUE, -1, <<<<25, 29>>, <<19, 24>>>>, 3, 1) >>
 >>
 GffOnly(k) == k = 7          \* an unnamed CDS has no GenBank form
 
@@ -69,7 +73,10 @@ RunsFor(k) ==
         Run("variants", "gb", TRUE, -1, -1, FALSE, 0, 1, TRUE), Run("samvar", "gb", TRUE, -1, -1, TRUE, 6, 2, FALSE),
         Run("samvar", "gb", TRUE, -1, 17, FALSE, 0, 1, FALSE), Run("samvar", "gb", TRUE, 2, 16, FALSE, 0, 2, FALSE),
         Run("samvar", "gb", TRUE, 10, -1, FALSE, 0, 1, FALSE),
-        Run("topa-variants", "gb", TRUE, -1, 17, FALSE, 0, 1, FALSE), Run("variants", "gb", FALSE, 2, 16, FALSE, 0, 1, FALSE) >>)
+        Run("topa-variants", "gb", TRUE, -1, 17, FALSE, 0, 1, FALSE), Run("variants", "gb", FALSE, 2, 16, FALSE, 0, 1, FALSE),
+        \* --aggregate under a window: one bound, the other, both (the counted rows are the windowed per-sequence rows)
+        Run("variants", "gb", FALSE, 10, -1, TRUE, 0, 1, FALSE), Run("variants", "gb", FALSE, -1, 12, TRUE, 0, 2, FALSE),
+        Run("variants", "gb", FALSE, 2, 16, TRUE, 12, 1, FALSE), Run("samvar", "gb", TRUE, -1, 17, TRUE, 0, 1, FALSE) >>)
   \o << Run("variants", "gff", FALSE, -1, -1, FALSE, 0, 1, FALSE), Run("variants", "gff", TRUE, -1, -1, FALSE, 0, 2, FALSE),
         Run("samvar", "gff", TRUE, -1, -1, FALSE, 0, 1, FALSE), Run("samvar-annoref", "gff", TRUE, -1, -1, FALSE, 0, 1, FALSE) >>
   \o (IF k = 10 THEN <<>> ELSE      \* (rows in coordinate order do not describe a gene whose first segment lies downstream)
